@@ -72,7 +72,7 @@ for _p in ["C01", "C02", "C04", "C05", "C06", "C07", "C08", "C09", "C10", "C11",
 PROPS = {
     "C03": {
         "level": "proof",
-        "technique": "Verus contracts on the real check_time_locks (extracted verbatim): iff-postcondition against per-assertion saturating-arithmetic spec, loop invariant over all spends",
+        "technique": "Verus contracts on the real check_time_locks (extracted verbatim): iff-postcondition against per-assertion saturating-arithmetic spec (both checking modes), loop invariant over all spends; spec-level fold-vs-each lemmas; max/min folding arms and the relative mark in parse_conditions (units conditions_effects, conditions_record); impossible-window and ephemeral clauses of validate_conditions (iff)",
         "level_text": "Deductive proof (Verus/Z3) over all inputs: check_time_locks returns Ok exactly when every folded assertion holds with saturating sums; unbounded in number of spends and in all u32/u64 values.",
         "level_note": "Assumes vstd HashMap model and key model for Bytes32; both checking modes are specified (saturating sums in the consensus mode, modular sums in the legacy mode). Spec-level lemmas (lemma_after_fold, lemma_before_fold, lemma_relative_after_fold) prove that testing a max-/min-folded lock is the same as testing every individual assertion, for any number of assertions, including saturating relative sums. Folding (max for after-locks, min for before-locks, birth agreement, impossible-window rejection, relative-condition mark) is proved for parse_conditions against the effect spec; validate_conditions (unit validate_conds) is proved to accept iff no absolute before-lock is <= the absolute after-lock and no spend with a relative lock is ephemeral (iff, with is_ephemeral against its definition); ",
         "components": [V("time_locks"), V("conditions_effects"), V("validate_conds"), V("conditions_record")],
@@ -107,7 +107,7 @@ PROPS["C11"] = {
 
 PROPS["C01"] = {
     "level": "proof",
-    "technique": "Verus contracts on the real condition parser (parse_opcode, sanitizers, list helpers, SpendId::parse, parse_args extracted verbatim) proved equal to a table-driven rule spec over all allocator trees, opcodes and flag words",
+    "technique": "Verus contracts on the real condition parser (parse_opcode, sanitizers, list helpers, SpendId::parse, parse_args extracted verbatim) proved equal to a table-driven rule spec over all allocator trees, opcodes and flag words; three overlays on the real parse_conditions / process_single_spend (summary == fold of the effect spec; recording rule for the deferred checks; signed texts); validate_conditions iff its accept spec; MempoolVisitor; parse_spends (unit drivers)",
     "level_text": "Deductive proof (Verus/Z3), unbounded in tree shape, list length and flags: each condition is accepted or rejected and decoded exactly as the rule table (DESIGN Appendix A) prescribes (tier 1, iff), and whenever parse_conditions / process_single_spend accept a spend, its summary (costs, relative/absolute locks, birth assertions, reserved fee, added amounts, created-coin set, coin identity) equals the fold of the per-condition effect spec over the condition list (tier 2); every announcement, concurrent-spend / -puzzle assertion, ephemeral assertion, relative mark and message is recorded into ParseState exactly once under the right coin and nothing else is (unit conditions_record, per condition); validate_conditions accepts exactly when the recorded assertions are satisfied (unit validate_conds, iff); parse_spends / run_spendbundle / run_block_generator2 string these together (unit drivers).",
     "level_note": "Assumed: clvmr Allocator accessor contracts (abstract immutable tree), bitflags semantics with constants read from flags.rs each run, 2-byte cost table entries (decided by native-eval under C04). Error codes are not part of the contract, accept/reject and the decoded value are.",
     "components": [V("conditions_effects"), V("mempool_visitor"), V("validate_conds"), V("drivers"), V("conditions_record")],
@@ -137,7 +137,7 @@ PROPS["C06"] = {
 
 PROPS["C04"] = {
     "level": "proof",
-    "technique": "Verus contracts on the real cost code (constants, subtract_cost, interned_vbytes, unknown-condition cost indexing) plus exhaustive native evaluation of the 2-byte cost table against the closed form",
+    "technique": "Verus contracts on the real cost code (constants, subtract_cost, interned_vbytes, unknown-condition cost indexing) plus exhaustive native evaluation of the 2-byte cost table against the closed form; pre-charge accounting and cost conservation in parse_conditions / process_single_spend; cost at the exits of run_spendbundle, run_block_generator2 and parse_spends (unit drivers); native evaluation of exact-limit obligations (budget == cost passes, cost - 1 fails) per cost class on both paths",
     "level_text": "Deductive proof of the cost constants, of subtract_cost (succeeds iff the charge fits, exact at the limit, frame on failure), of interned_vbytes == sum(atom_len)+2*atoms+3*pairs, and of the low-byte indexing of the unknown-condition table; the 65536 values of compute_unknown_condition_cost are decided exhaustively by evaluating the real function against an independent big-integer closed form.",
     "level_note": "parse_conditions' accounting is proved: the three accumulators (limit, bundle, spend) move by exactly the table cost of each condition, charged before its arguments are parsed, with CostExceeded exactly when the charge does not fit; SPEND_COST in process_single_spend. The driver exits are proved in unit drivers: run_spendbundle and run_block_generator2 report exactly generator size cost (serialized length minus the quote wrapper, resp. program length, resp. interned virtual bytes, times cost_per_byte) + CLVM execution cost + condition cost, never more than the limit, every charge through subtract_cost, under the cost-conservation contract of process_single_spend proved in unit conditions_aggsig. CLVM execution cost is whatever run_program returns (assumed <= the budget it was given). Exactness of the limit end to end (a budget equal to the cost passes, one less fails) is a relation between two runs: decided on ground bundles on both paths with and without COST_CONDITIONS (task paths_ground), since a one-directional contract cannot see a test that rejects too early.",
     "components": [V("costs"), V("conditions_effects"), N("native_cost_table", "cost_table"), V("drivers"), N("native_paths_ground", "paths_ground")],
@@ -186,7 +186,7 @@ PROPS["C14"] = {
 
 PROPS["C17"] = {
     "level": "proof",
-    "technique": "Verus contracts on the real tree_hash_atom/tree_hash_pair and the iterative tree_hash stack machine (extracted verbatim) against the recursive definition th(); exhaustive native evaluation of the 24 precomputed small-atom hashes",
+    "technique": "Verus contracts on the real tree_hash_atom/tree_hash_pair and the iterative tree_hash stack machine (extracted verbatim) against the recursive definition th(); tree_hash_cached with the TreeCache invariant; curry_tree_hash / curry_and_treehash against the tree hash of the curried program (unit curry); exhaustive native evaluation of the 24 precomputed small-atom hashes",
     "level_text": "Deductive proof for every allocator tree (any depth/width/sharing, since th is a function of the abstract tree): tree_hash returns sha256(1‖atom) / sha256(2‖th l‖th r) recursively, never underflows its stacks and terminates (measure 2*size). The small-atom shortcut is sound because the 24 table constants are recomputed exhaustively.",
     "level_note": "Assumed: Sha256 ghost model over an uninterpreted sha256; clvmr Allocator::node contract. tree_hash_cached with the TreeCache invariant (every memoised hash is the tree hash of its node, for any call history) is proved in unit tree_hash; curry_tree_hash and fast_forward's curry_and_treehash / curry_single_arg are proved in unit curry against the tree hash of the curried program (a (q . program) (c (q . arg) ... 1)); tree_hash_from_bytes is the composition of an assumed decoder and tree_hash_cached.",
     "components": [V("tree_hash"), N("native_tree_hash_precomputed", "tree_hash_precomputed"), V("curry")],
@@ -227,7 +227,7 @@ PROPS["C15"] = {
 
 PROPS["C18"] = {
     "level": "proof",
-    "technique": "Verus contracts on the real BlockStatusCache methods (representation invariant, freshness precondition of add_leaf), on the insertion sites insert_entry_to_blob and upsert, on internal_hash/calculate_internal_hash and ProofOfInclusion::{root_hash,valid}; native evaluation of fixed operation histories on the real crate",
+    "technique": "Verus contracts on the real BlockStatusCache methods (representation invariant, freshness precondition of add_leaf), on the insertion sites insert_entry_to_blob and upsert, on internal_hash/calculate_internal_hash and ProofOfInclusion::{root_hash,valid}; native evaluation of fixed operation histories on the real crate; BOUNDED native exploration of every operation history up to a stated length against a plain map (labelled bounded, not counted as proved)",
     "level_text": "Deductive proof that the key/hash/free-index cache keeps its invariant (one index per key and per hash, same index sets, none free) under every add/remove, that a leaf can only be written under a fresh key and hash (a proof obligation at every insertion site under contract: upsert now discharges it), that a failed cache operation changes nothing, and that ProofOfInclusion::valid is exactly the per-layer internal-hash chain ending in root_hash. Whole-history equivalence with a plain map is NOT proved; fixed histories (duplicate keys/hashes in batch_insert, upsert onto another leaf's hash, duplicate insert) are decided by evaluating the real code.",
     "level_note": "Assumed: vstd HashMap model + key model for KeyId/Hash, IndexSet as a finite set, Sha256 ghost model, and the helper contracts of MerkleBlob (get_leaf_by_key consistency between blob bytes and cache, mark_lineage_as_dirty/insert framing). batch_insert, delete, tree-shape invariants over the blob bytes, dirty-hash propagation and reload equivalence are not under contract.",
     "components": [V("blob_cache"), N("native_datalayer_ground", "datalayer_ground"),
@@ -245,7 +245,7 @@ PROPS["C18"] = {
 
 PROPS["C02"] = {
     "level": "proof",
-    "technique": "Verus contracts on the real process_single_spend / compute_coin_id / Coin::coin_id / parse_conditions: coin-id formula over the canonical amount, double-spend exclusion via the spent-coin map, duplicate-output exclusion and exact totals",
+    "technique": "Verus contracts on the real process_single_spend / compute_coin_id / Coin::coin_id / parse_conditions: coin-id formula over the canonical amount, double-spend exclusion via the spent-coin map, duplicate-output exclusion (NewCoin identity) and exact totals; validate_conditions' conservation clauses (iff); run_spendbundle's recorded spend identity (declared puzzle hash == tree hash of the reveal)",
     "level_text": "Deductive proof: every accepted spend has a 32-byte parent and puzzle hash and a canonical amount; its coin id is sha256(parent ‖ puzzle hash ‖ canon(amount)) (and Coin::coin_id computes the same formula); the id was not spent before in the bundle (else DoubleSpend); removal_amount grows by exactly the coin amount, addition_amount by exactly the created amounts, no (puzzle hash, amount) is created twice by one spend, u128 totals cannot overflow.",
     "level_note": "The final conservation test in validate_conditions (additions <= removals, reserved fee <= removals - additions) is proved in unit validate_conds (iff); in run_spendbundle (unit drivers) the spend recorded for each coin is proved to carry the coin's own parent id, its declared puzzle hash - checked equal to the tree hash of the revealed puzzle - and its amount; run_block_generator2 computes the puzzle hash itself (tree_hash_cached of the reveal). sha256 uninterpreted; NewCoinSet identity assumed to be (puzzle_hash, amount) as NewCoin's PartialEq/Hash implement it.",
     "components": [V("conditions_effects"), V("int_encoders"), V("validate_conds"), V("drivers")],
@@ -271,7 +271,7 @@ PROPS["C05"] = {
 }
 PROPS["C08"] = {
     "level": "proof",
-    "technique": "Verus contracts on the real clvm_bytes_len and calculate_generator_length (extracted; generic parameter monomorphised) against the CLVM serialisation-length spec of (q . (spends)); QUOTE_BYTES lemma",
+    "technique": "Verus contracts on the real clvm_bytes_len and calculate_generator_length (extracted; generic parameter monomorphised) against the CLVM serialisation-length spec of (q . (spends)); QUOTE_BYTES lemma; Verus contracts on the real calculate_base_cost and run_spendbundle (unit drivers); native evaluation of ground comparisons of the mempool path with the block path over plain / back-reference / builder generators",
     "level_text": "Deductive proof for every list of coin spends (any reveals, any u64 amounts): the predicted generator length equals the serialized length of the quoted spend list, 5 + sum(39 + |puzzle| + ser_len(canon(amount)) + |solution|) as derived from the serialisation format, and the quote-wrapper overhead is exactly 2 bytes.",
     "level_note": "Unit drivers: calculate_base_cost is proved to charge the serialized length without the 2-byte quote wrapper (interned virtual bytes under INTERNED_GENERATOR, whatever the number of spends), run_spendbundle to hand the parser (parent id, canonical amount) for every coin and to report size + execution + condition cost. Agreement of the two paths over generators built from the bundle needs CLVM execution: decided on 224 ground comparisons (28 bundles: coin amounts at every canonical-length boundary, 0/1/2/5 spends, rejected bundles) x plain / back-reference / builder generators x with and without INTERNED_GENERATOR: same verdict, same conditions, cost offset exactly the quote overhead, predicted length == emitted length.",
     "components": [V("generator_len"), V("int_encoders"), V("drivers"), N("native_paths_ground", "paths_ground")],
